@@ -18,7 +18,9 @@ Sources
   OS       operating-system entropy: ``default_rng()`` / bit generators / ``seed()`` without argument,
            ``os.urandom``, ``secrets``, ``uuid``; third-party entry points known to seed from the OS
            (pymoo 0.6.2 ``minimize`` without ``seed=``  ->  ``numpy.random.default_rng(None)``)
-  DROPS    an instance method of a class that owns a generator passes the literal ``rng = None`` on
+  DROPS    an instance method of a class that owns a generator passes the literal ``rng = None`` on (or calls a package function /
+           constructor that accepts ``rng`` without forwarding the generator); a pymoo operator that was handed ``random_state`` calls a
+           package function, or a method of its own class, that has a ``random_state`` parameter without forwarding it
   IGNORED  a function accepts ``rng`` and never reads it (abstract stubs excepted)
   COPIES   the body takes a *snapshot* of a generator instead of sharing it: ``copy.copy`` / ``copy.deepcopy`` / ``pickle.dumps``
            applied to a generator reference (``rng``, ``random_state``, ``<obj>.rng``, ``<obj>._rng``, ``global_prng``), or an
@@ -326,6 +328,7 @@ class Table:
                 if k.arg == "rng" and isinstance(k.value, ast.Constant) and k.value.value is None and owns:
                     self._src(f, "DROPS", "passes rng = None although a generator is at hand", e)
             if owns: self._forwarding(f, e, mod, shadow)
+            if f.rs_handed: self._forwarding_rs(f, e, mod, shadow)
             return
         if isinstance(e, ast.Lambda):
             for d in e.args.defaults: self._expr(f, d, mod, shadow, default_nodes, rng_params)
@@ -411,6 +414,36 @@ class Table:
                     self._src(f, "DROPS", "calls %s with the literal None in the rng position although a generator is at hand" % g.qn[len("pybrops."):], call)
                 continue
             self._src(f, "DROPS", "calls %s without forwarding the generator" % g.qn[len("pybrops."):], call)
+
+    def _forwarding_rs(self, f, call, mod, shadow):
+        """the callee (a package function, or a method of the caller's own class reached through self) has a random_state parameter, the
+        caller was handed a generator by pymoo and does not hand it on: the callee falls back on its default (the global stream)"""
+        fn = call.func
+        cands = []
+        if isinstance(fn, ast.Attribute) and isinstance(fn.value, ast.Name) and fn.value.id in ("self", "cls") and fn.value.id in shadow and f.cls:
+            for c in self.cone(f.cls):
+                for g in self.classes[c].members.get(fn.attr, []):
+                    if g.kind in ("method", "classmethod", "staticmethod"): cands.append((g, 0 if g.kind == "staticmethod" else 1))
+        else:
+            x = fn
+            while isinstance(x, ast.Attribute): x = x.value
+            if not isinstance(x, ast.Name) or (x.id in shadow and x.id not in self.toplevel[mod]): return
+            ident = self._ident(fn, mod)
+            tgt = self._resolve_pkg(ident) if ident and ident.startswith("pybrops.") else None
+            if tgt in self.funcs: cands = [(self.funcs[tgt], 0)]
+        for g, skip in cands:
+            a = g.node.args
+            if "random_state" not in [x.arg for x in a.posonlyargs + a.args + a.kwonlyargs]: continue
+            if any(k.arg == "random_state" or k.arg is None for k in call.keywords): continue
+            pos = [x.arg for x in a.posonlyargs + a.args][skip:]
+            if "random_state" in pos:
+                if any(isinstance(x, ast.Starred) for x in call.args): continue
+                if len(call.args) > pos.index("random_state"):
+                    v = call.args[pos.index("random_state")]
+                    if isinstance(v, ast.Constant) and v.value is None:
+                        self._src(f, "DROPS", "calls %s with the literal None in the random_state position although pymoo handed a generator over" % g.qn[len("pybrops."):], call)
+                    continue
+            self._src(f, "DROPS", "calls %s without forwarding the random_state pymoo handed over" % g.qn[len("pybrops."):], call)
 
     def class_owns_rng(self, cqn):
         return any("rng" in self.classes[a].members for a in self.ancestors(cqn))
@@ -721,6 +754,32 @@ class Op:
     def _do_owndefault(self, problem, X, **kwargs):
         random_state = kwargs.get("random_state", default_rng())
         return random_state.random()
+    def _helper(self, x, *args, random_state=None, **kwargs):
+        if random_state is None:
+            random_state = global_prng
+        return random_state.random()
+    def _do_fwd(self, problem, X, **kwargs):
+        random_state = kwargs.get("random_state")
+        return self._helper(X, random_state = random_state)
+    def _do_fwdkw(self, problem, X, **kwargs):
+        random_state = kwargs.get("random_state")
+        return self._helper(X, **kwargs)
+    def _do_drop(self, problem, X, **kwargs):
+        random_state = kwargs.get("random_state")
+        return self._helper(X)
+    def _do_dropfn(self, problem, X, **kwargs):
+        random_state = kwargs.get("random_state")
+        return rs_helper(3)
+    def _do_dropnone(self, problem, X, **kwargs):
+        random_state = kwargs.get("random_state")
+        return rs_helper(3, None), random_state.random()
+    def _do_fwdfn(self, problem, X, **kwargs):
+        random_state = kwargs.get("random_state")
+        return rs_helper(3, random_state)
+def rs_helper(a, random_state=None):
+    if random_state is None:
+        random_state = global_prng
+    return random_state.random()
 def ok_types(x: numpy.random.Generator) -> numpy.random.RandomState: return isinstance(x, Generator)
 def bad_global(): return global_prng.normal()
 def bad_global_cond(rng=None):
@@ -775,7 +834,7 @@ def ok_copy_other(x, rng=None):
 def ok_shadowed_copy(x, copy, rng=None): return copy.copy(rng)
 '''
 _SELFTEST_EXPECT = {"ok_param": 5, "bad_np_attr": 8, "bad_np_alias": 8, "bad_npr": 8, "bad_from": 8, "bad_py": 16, "bad_py_from": 16,
-                    "bad_os": 32, "bad_os2": 32, "bad_os3": 32, "bad_os4": 32, "bad_os5": 32, "bad_os6": 32, "bad_os7": 32, "ok_seeded": 0, "Op._do": 5, "Op._do_sub": 1, "Op._do_par": 1, "Op._do_bad": 8, "Op._do_other": 0, "Op._do_owndefault": 32, "G.run": 2, "G.run_unseeded": 32, "ok_derived": 0, "ok_types": 0,
+                    "bad_os": 32, "bad_os2": 32, "bad_os3": 32, "bad_os4": 32, "bad_os5": 32, "bad_os6": 32, "bad_os7": 32, "ok_seeded": 0, "Op._do": 5, "Op._do_sub": 1, "Op._do_par": 1, "Op._do_bad": 8, "Op._do_other": 0, "Op._do_owndefault": 32, "Op._helper": 5, "Op._do_fwd": 1, "Op._do_fwdkw": 0, "Op._do_drop": 64, "Op._do_dropfn": 64, "Op._do_dropnone": 65, "Op._do_fwdfn": 1, "rs_helper": 5, "G.run": 2, "G.run_unseeded": 32, "ok_derived": 0, "ok_types": 0,
                     "bad_global": 8, "bad_global_cond": 9, "bad_wrapper": 8, "bad_urandom": 32, "bad_secrets": 32, "ignored": 128, "stub": 0,
                     "calls_bad": 0, "nested": 8, "A.__init__": 3, "A.rng": 2, "A.rng.setter": 6, "A.use": 2, "A.drop": 64, "A.drop2": 64,
                     "A.fwd": 2, "A.fwdpos": 2, "A.droppos": 64, "B.use": 8, "via_method": 0, "via_ctor": 0,
